@@ -61,6 +61,8 @@ func runC10(c *Ctx) {
 	c10QueuedHandshakes(c)
 	c10DialRacingClose(c)
 	c10BystanderListener(c)
+	runListenerCloseKeepsPipes(c)
+	runInprocDialParkedAtClose(c)
 }
 
 // every protocol at pipe level: after Close, repeated Sends (well-formed for the pattern, and header-less) and Recvs
